@@ -6,6 +6,7 @@ import Cicada.Model.Core
 import Cicada.Spec.C03
 import Cicada.Spec.C01
 import Cicada.Spec.C10
+import Cicada.Spec.C12
 /-!
 `cicada_model` — runs the Lean model (the very definitions the theorems are about) and the
 reference semantics on the cases of the correspondence protocol.
@@ -153,6 +154,52 @@ def parseSegs (s : String) : List C10.Seg :=
     | ["p"] => some .pid
     | _ => none)
 
+/-! brace terms on the wire: literal characters as they are, `[` alt `|` alt `]` for groups -/
+mutual
+def pWord : Nat → List Char → Option (C12.Word × List Char)
+  | 0, _ => none
+  | _ + 1, [] => some (.nil, [])
+  | f + 1, c :: cs =>
+    if c = '|' ∨ c = ']' then some (.nil, c :: cs)
+    else if c = '[' then
+      match pAlts f cs with
+      | some (a, ']' :: rest) =>
+        (match pWord f rest with
+         | some (w, r) => some (.cons (.grp a) w, r)
+         | none => none)
+      | _ => none
+    else match pWord f cs with
+      | some (w, r) => some (.cons (.lit c) w, r)
+      | none => none
+def pAlts : Nat → List Char → Option (C12.Alts × List Char)
+  | 0, _ => none
+  | f + 1, s =>
+    match pWord f s with
+    | some (w, '|' :: rest) =>
+      (match pAlts f rest with
+       | some (a, r) => some (.more w a, r)
+       | none => none)
+    | some (w, r) => some (.one w, r)
+    | none => none
+end
+
+def parseTerm (s : Str) : Option C12.Word :=
+  match pWord (2 * s.length + 2) s with
+  | some (w, []) => some w
+  | _ => none
+
+mutual
+def wordChars : C12.Word → List Char
+  | .nil => []
+  | .cons t w => termChars t ++ wordChars w
+def termChars : C12.Term → List Char
+  | .lit c => [c]
+  | .grp a => altsChars a
+def altsChars : C12.Alts → List Char
+  | .one w => wordChars w
+  | .more w r => wordChars w ++ altsChars r
+end
+
 def answer (stream : String) (f : Array String) : Ans :=
   let g (i : Nat) : String := f.getD i "-"
   match stream with
@@ -204,8 +251,40 @@ def answer (stream : String) (f : Array String) : Ans :=
       { a with s := toksOut [C10.specToken e q w], guard := if gate then "1" else "0",
                cls := if gate then "-" else "gate-rejects-reference" }
     else a
-  | "xbrace" => ansOf toksOut (expandBrace (toksIn (g 0)))
-  | "xrange" => { m := toksOut (expandBraceRange (toksIn (g 0))) }
+  | "xbrace" =>
+    let a := ansOf toksOut (expandBrace (toksIn (g 0)))
+    if g 1 = "c12" then
+      match parseTerm (unhex (g 2)) with
+      | none => { a with s := "BAD-TERM" }
+      | some w =>
+        if toksIn (g 0) ≠ [([], C12.render w)] then { a with s := "RENDER-MISMATCH" } else
+        let ok := C12.okW w && (wordChars w).all braceInner
+        if !ok then { a with guard := "0", cls := "outside-statement:literal" } else
+        { a with s := toksOut ((C12.denote w).map tagBlank), guard := "1" }
+    else a
+  | "xrange" =>
+    let a : Ans := { m := toksOut (expandBraceRange (toksIn (g 0))) }
+    if g 1 = "c12r" then
+      match (g 2).toInt?, (g 3).toInt? with
+      | some m, some n =>
+        let s : Int := match (g 4).toInt? with
+          | some k => if k ≤ 1 then 1 else k
+          | none => 1
+        let pre := unhex (g 5)
+        let post := unhex (g 6)
+        let inI32 (z : Int) : Bool := decide (-(2 ^ 31 : Int) ≤ z) && decide (z < (2 ^ 31 : Int))
+        let seq := C12.rangeSpec m n s (C12.rangeCount m n s)
+        let seq := seq.filter inI32
+        let spec := seq.map (fun z => tagBlank (pre ++ showInt z ++ post))
+        -- a bound or step that does not fit an i32 is answered with a diagnostic (the pass gives up): outside the statement
+        let fits := inI32 m && inI32 n && (match (g 4).toInt? with
+          | some k => inI32 k
+          | none => true)
+        if !fits then { a with guard := "0", cls := "outside-statement:range-bound-not-i32" } else
+        { a with s := toksOut spec, guard := "1" }
+      | _, _ => a
+    else a
+  | "xglob" => { m := toksOut (expandGlob (envIn (g 0)).env (toksIn (g 1))) }
   | "xall" =>
     let ts := toksIn (g 1)
     ansOf toksOut (doExpansion (envIn (g 0)).subst (planFuel (tokensToLine ts)) ts)
